@@ -444,14 +444,20 @@ Proof.
   assert (H1 : same_skc s1 s) by (subst s1; destruct c; try apply same_skc_refl; apply update_gateway_services_skc).
   clearbody s1.
   set (P := if bool_decide (c = CDefaults true) then ({[ (destination_kind, name) ]} : gset (string * string)) else ∅).
-  set (s2 := match c with CDefaults true => _ | _ => s1 end) in He.
+  set (s2 := match c with CDefaults true => _ | CDefaults false => _ | _ => s1 end) in He.
   assert (H2 : services s2 = services s /\ confs s2 = confs s /\ ksn s2 = ksn s ∪ P).
   { destruct H1 as (H1s & H1c & H1k).
+    (* under the discipline an entry written without a Destination never meets a stored one that has it *)
+    assert (Hnodrop : c = CDefaults false -> bool_decide (confs s1 !! ("service-defaults", name) = Some (CDefaults true)) = false).
+    { intros Hc. apply bool_decide_eq_false_2. rewrite H1c. intros Hst.
+      destruct HJ as [[_ D2] _]. destruct (D2 _ _ _ Hst) as [_ Hdd]. specialize (Hdd true eq_refl).
+      specialize (Hd false Hc). congruence. }
     assert (Hx : forall X, same_skc X s1 ->
       services (upsert_ksn destination_kind name X) = services s /\ confs (upsert_ksn destination_kind name X) = confs s /\
       ksn (upsert_ksn destination_kind name X) = ksn s ∪ {[ (destination_kind, name) ]}).
     { intros X (X1 & X2 & X3). unfold upsert_ksn. cbn. rewrite X1, X2, X3, H1s, H1c, H1k. repeat split. set_solver. }
     subst s2 P. destruct c as [| |[]|].
+    4: rewrite (Hnodrop eq_refl).
     1,2,4,5: (rewrite bool_decide_eq_false_2 by discriminate; rewrite H1s, H1c, H1k; repeat split; set_solver).
     rewrite (bool_decide_eq_true_2 (CDefaults true = CDefaults true)) by reflexivity. apply Hx.
     eapply same_skc_trans; [apply check_gateway_and_update_skc|apply check_gateway_wildcards_and_update_skc]. }
